@@ -49,11 +49,13 @@ def be(n, width):
     return (n % (1 << (8 * width))).to_bytes(width, 'big')
 
 
-def frame(payload, threshold=None):
-    """payload = id varint + fields.  threshold None = compression disabled."""
+def frame(payload, threshold=None, ge=False):
+    """payload = id varint + fields.  threshold None = compression disabled.
+    ge=False: deflate when len > threshold (pyCraft's own writer); ge=True: when len >= threshold (what
+    vanilla servers and proxies do -- both are valid streams, a reader must accept either)."""
     if threshold is None:
         body = payload
-    elif threshold >= 0 and len(payload) > threshold:
+    elif threshold >= 0 and (len(payload) >= threshold if ge else len(payload) > threshold):
         body = varint(len(payload)) + zlib.compress(payload)
     else:
         body = varint(0) + payload
